@@ -11,7 +11,20 @@ Supported Rust subset (enough for poly1305 block/finish, fe64 add/sub/neg/mul/sq
   expressions: integer literals, paths/consts, + - * & | ^ << >> ! unary-, `as T`, calls f(a,b), methods
   .wrapping_add/.wrapping_sub/.wrapping_mul/.wrapping_neg, indexing a[i], a[i..j], &, *, field access, tuples/struct
   constructors `Fe([..])`, `if c { a } else { b }` as an expression on simple conditions.
-Anything else raises TranslateError -> reported as a broken extraction (the tie cannot be established).
+Anything else raises TranslateError -> reported as a broken extraction (the tie cannot be established).  In particular (audit 3):
+  * `return` has its own AST node ("return", e); in these straight-line kernels a `return` or a value expression that is not the
+    LAST statement, and every `if` / `match` / block STATEMENT, is refused (only the value-`if` above is translated); a trailing
+    expression the spec's result function does not look at must be a plain value (no call of an unknown function, no block);
+  * `#[cfg(..)]` / `#[cfg_attr(..)]` on a statement is refused; other attributes (`#[inline]`, `#[rustfmt::skip]`) are skipped;
+  * the function is looked up INSIDE the braces of the item the `scope` regex matches, must be unique there, and item-level
+    `#[cfg]`s are evaluated against the table of `cfg_atom` (x86_64 + SSE2, `cryptoxide_verif`, default cargo features, not test);
+  * a nested `fn` item is accepted only if a kernel of the same spec module translates that very item (check_nested_fn);
+  * `let x = &mut <place>` / `p = &mut <place>` (a mutable alias) is refused;
+  * names are resolved by spelling: a renaming import (`use a::b as c`) of a name the body mentions is refused, and a spec may pin
+    the import path of its helpers (`uses=`).
+What is NOT checked here: that a helper named in `calls` (e.g. `mul128`, `shl128`) is the function of that name the Rust call reaches
+when it is neither imported by a `use` nor nested in the body (it is then the module-level item of the file; its own tie is the
+spec's business), and trait dispatch.
 
 Two backends (chosen per kernel so that the output has the *same shape* as the hand model):
   "natlet": every value a Nat, checked + and * are the mathematical operations (no-overflow is a separate
@@ -62,17 +75,193 @@ def lex(src):
     return out
 
 
-def find_fn(src, fn, scope=None):
-    """body token text of `fn <fn>` (optionally inside `impl … <scope> …{`)"""
-    text = strip_comments(src)
-    start = 0
-    if scope:
-        m = re.search(scope, text)
+# ----------------------------------------------------------------------------------------------- source structure
+#
+# Item lookup is by STRUCTURE, not by "first textual match": the scope of a lookup is a bounded region (the braces of the impl /
+# fn / mod the scope regex names), a match must be unique among the items that are COMPILED under the configuration below, and a
+# `#[cfg(..)]` on the item or on any enclosing item is evaluated against that explicit table.
+
+def repo():
+    """the crate under translation (CX_REPO is read at call time so that tools can point the translators at a scratch copy)"""
+    return os.environ.get("CX_REPO", REPO)
+
+
+_CHARLIT = re.compile(r"'(?:\\.[^']*|[^\\'])'")
+
+
+def scan_braces(text):
+    """all `{ … }` groups of comment-stripped Rust text: list of (open index, close index, index of the parent group or -1),
+    in order of the opening brace; braces inside string / char literals are ignored"""
+    groups, stack, i, n = [], [], 0, len(text)
+    while i < n:
+        c = text[i]
+        if c == '"':
+            i += 1
+            while i < n and text[i] != '"':
+                i += 2 if text[i] == "\\" else 1
+        elif c == "'":
+            m = _CHARLIT.match(text, i)
+            if m:
+                i = m.end() - 1
+        elif c == "{":
+            groups.append([i, None, stack[-1] if stack else -1])
+            stack.append(len(groups) - 1)
+        elif c == "}":
+            if not stack:
+                raise TranslateError("unbalanced `}` in source")
+            groups[stack.pop()][1] = i
+        i += 1
+    if stack:
+        raise TranslateError("unbalanced `{` in source")
+    return [tuple(g) for g in groups]
+
+
+def item_header(text, pos):
+    """the text of the item header that ends at `pos` (attributes, visibility, qualifiers): back to the previous `;` `{` `}`"""
+    depth, j = 0, pos - 1
+    while j >= 0:
+        c = text[j]
+        if c in ")]":
+            depth += 1
+        elif c in "([":
+            depth -= 1
+        elif depth <= 0 and c in ";{}":
+            break
+        j -= 1
+    return text[j + 1:pos]
+
+
+def attr_list(header):
+    """[(name, argument text)] of the `#[name(args)]` / `#![name(args)]` attributes in a header text"""
+    out, i = [], 0
+    while True:
+        m = re.compile(r"#\s*!?\s*\[").search(header, i)
         if not m:
-            raise TranslateError(f"scope {scope!r} not found")
-        start = m.end()
-    hdr = None
-    for m in re.compile(r"\bfn\s+" + re.escape(fn) + r"\b").finditer(text, start):
+            return out
+        d, j = 1, m.end()
+        while j < len(header) and d:
+            d += (header[j] == "[") - (header[j] == "]")
+            j += 1
+        inner = header[m.end():j - 1].strip()
+        nm = re.match(r"[\w:]+", inner)
+        out.append((nm.group(0) if nm else "", inner[nm.end():].strip() if nm else inner))
+        i = j
+
+
+_FEATURES = {}
+
+
+def cargo_features():
+    """(enabled default features incl. transitive ones, all declared features) of the crate's Cargo.toml; (None, None) if unreadable"""
+    root = repo()
+    if root not in _FEATURES:
+        try:
+            txt = open(os.path.join(root, "Cargo.toml")).read()
+        except OSError:
+            _FEATURES[root] = (None, None)
+            return _FEATURES[root]
+        m = re.search(r"^\[features\]\s*$(.*?)(?=^\[|\Z)", txt, re.S | re.M)
+        table = {}
+        for fm in re.finditer(r"^\s*([\w-]+)\s*=\s*\[(.*?)\]", m.group(1) if m else "", re.S | re.M):
+            table[fm.group(1)] = re.findall(r'"([^"]+)"', fm.group(2))
+        on, todo = set(), list(table.get("default", []))
+        while todo:
+            f = todo.pop()
+            if f not in on:
+                on.add(f)
+                todo += table.get(f, [])
+        _FEATURES[root] = (on, set(table) - {"default"})
+    return _FEATURES[root]
+
+
+def cfg_atom(key, val):
+    """truth of one cfg predicate under the configuration the translators model: target x86_64 with SSE2 (the baseline of that
+    target), little endian, 64-bit pointers, `--cfg cryptoxide_verif`, the crate's DEFAULT cargo features, not `test`.
+    None = not decided by this table (another target feature, the build profile, an undeclared feature, an unknown key)"""
+    if val is None:
+        return {"test": False, "cryptoxide_verif": True, "unix": None, "windows": None, "debug_assertions": None}.get(key)
+    if key == "feature":
+        on, declared = cargo_features()
+        if on is None:
+            return None
+        return True if val in on else (False if val in declared else None)
+    if key == "target_arch":
+        return val == "x86_64"
+    if key == "target_feature":
+        return True if val == "sse2" else None
+    if key == "target_pointer_width":
+        return val == "64"
+    if key == "target_endian":
+        return val == "little"
+    return None
+
+
+def eval_cfg(pred):
+    """three-valued evaluation (True / False / None = unknown) of the predicate text inside `cfg( … )`"""
+    pred = pred.strip()
+    m = re.fullmatch(r"(all|any|not)\s*\((.*)\)", pred, re.S)
+    if m:
+        parts, cur, d, instr = [], "", 0, False
+        for ch in m.group(2):
+            if ch == '"':
+                instr = not instr
+            if not instr:
+                d += (ch == "(") - (ch == ")")
+            if ch == "," and d == 0 and not instr:
+                parts.append(cur); cur = ""
+            else:
+                cur += ch
+        if cur.strip():
+            parts.append(cur)
+        vals = [eval_cfg(x) for x in parts]
+        if m.group(1) == "not":
+            if len(vals) != 1:
+                raise TranslateError(f"cfg: not() of {len(vals)} predicates")
+            return None if vals[0] is None else not vals[0]
+        if m.group(1) == "all":
+            return False if False in vals else (None if None in vals else True)
+        return True if True in vals else (None if None in vals else False)
+    m = re.fullmatch(r"(\w+)\s*(?:=\s*\"([^\"]*)\")?", pred)
+    if not m:
+        raise TranslateError(f"cfg: cannot parse predicate `{pred}`")
+    return cfg_atom(m.group(1), m.group(2))
+
+
+def header_cfg(header):
+    """conjunction of the `#[cfg(..)]` attributes of an item header (three-valued); `cfg_attr` that could add a cfg is refused"""
+    val = True
+    for name, args in attr_list(header):
+        if name == "cfg_attr" and re.search(r"\bcfg\s*\(", args):
+            raise TranslateError("`cfg_attr(.., cfg(..))` on an item is outside the translated subset")
+        if name != "cfg":
+            continue
+        if not (args.startswith("(") and args.endswith(")")):
+            raise TranslateError("cfg attribute: syntax")
+        v = eval_cfg(args[1:-1])
+        val = False if (v is False or val is False) else (None if (v is None or val is None) else True)
+    return val
+
+
+def compiled_at(text, pos, groups=None):
+    """is the item whose keyword is at `pos` compiled?  (its own `#[cfg]`s and those of every enclosing item; three-valued)"""
+    groups = scan_braces(text) if groups is None else groups
+    val = header_cfg(item_header(text, pos))
+    for o, c, _ in groups:
+        if o < pos < c:
+            v = header_cfg(item_header(text, o))
+            val = False if (v is False or val is False) else (None if (v is None or val is None) else True)
+    return val
+
+
+def depth_at(groups, pos, lo=-1):
+    return sum(1 for o, c, _ in groups if o < pos < c and o > lo)
+
+
+def fn_candidates(text, fn, lo=0, hi=None, groups=None):
+    """every `fn <fn> … { body }` whose keyword lies in text[lo:hi]: (header start, body open + 1, body end, keyword position)"""
+    hi = len(text) if hi is None else hi
+    out = []
+    for m in re.compile(r"\bfn\s+" + re.escape(fn) + r"\b").finditer(text, lo, hi):
         # scan the signature: the body opens at the first `{` outside ( ) [ ]; a `;` outside them = declaration only
         depth, j = 0, m.end()
         while j < len(text):
@@ -82,27 +271,207 @@ def find_fn(src, fn, scope=None):
             elif c in ")]":
                 depth -= 1
             elif c == "{" and depth == 0:
-                hdr = (m.start(), j + 1)
+                end = next((c2 for o2, c2, _ in (groups or scan_braces(text)) if o2 == j), None)
+                if end is None:
+                    raise TranslateError(f"fn {fn}: unbalanced body")
+                out.append((m.start(), j + 1, end, m.start()))
                 break
             elif c == ";" and depth == 0:
                 break
             j += 1
-        if hdr:
-            break
-    if not hdr:
-        raise TranslateError(f"fn {fn} not found")
-    depth, i = 1, hdr[1]
-    while i < len(text) and depth:
-        depth += {"{": 1, "}": -1}.get(text[i], 0)
-        i += 1
-    return text[hdr[0]:hdr[1]], text[hdr[1]:i - 1]
+    return out
+
+
+def select_unique(text, cands, groups, what, lo=-1):
+    """among candidate items (tuples ending with the keyword position): drop those not compiled, prefer the shallowest nesting
+    level (an item directly in the scope shadows nothing that is nested deeper), demand exactly one"""
+    live = []
+    for c in cands:
+        v = compiled_at(text, c[-1], groups)
+        if v is not False:
+            live.append((c, v))
+    if not live:
+        return None
+    d0 = min(depth_at(groups, c[-1], lo) for c, _ in live)
+    top = [(c, v) for c, v in live if depth_at(groups, c[-1], lo) == d0]
+    if len(top) > 1:
+        raise TranslateError(f"{what} is ambiguous: {len(top)} definitions that may be compiled in the same scope")
+    if top[0][1] is None and len(cands) > 1:
+        raise TranslateError(f"{what}: {len(cands)} definitions and the `#[cfg]` of the candidate is not decided by the translators' "
+                             "configuration table (kernel_translate.cfg_atom)")
+    return top[0][0]
+
+
+def scope_regions(text, scope, groups):
+    """the brace groups (open, close) opened by the items the scope regex matches (impl / fn / mod headers), compiled ones only"""
+    out = []
+    for m in re.finditer(scope, text):
+        depth, j = 0, m.start()
+        while j < len(text):
+            c = text[j]
+            if c in "([":
+                depth += 1
+            elif c in ")]":
+                depth -= 1
+            elif c == "{" and depth == 0:
+                break
+            elif c == ";" and depth == 0 and j >= m.end():
+                j = None
+                break
+            j += 1
+        if j is None or j >= len(text):
+            continue
+        close = next(c2 for o2, c2, _ in groups if o2 == j)
+        kw = m.start()
+        if compiled_at(text, kw, groups) is False:
+            continue
+        if (j, close) not in out:
+            out.append((j, close))
+    return out
+
+
+def find_fn(src, fn, scope=None):
+    """(header, body text) of `fn <fn>`; `scope` (a regex matching the header of an impl / fn / mod) BOUNDS the search to the braces
+    of that item.  The definition must be unique among the compiled candidates (see select_unique); items under a false
+    `#[cfg(..)]` (e.g. `#[cfg(test)] mod tests`, `#[cfg(not(cryptoxide_verif))] impl …`) are never chosen."""
+    text = strip_comments(src)
+    groups = scan_braces(text)
+    if scope:
+        regions = scope_regions(text, scope, groups)
+        if not regions:
+            raise TranslateError(f"scope {scope!r} not found (or not compiled)")
+    else:
+        regions = [(-1, len(text))]
+    found = []
+    for lo, hi in regions:
+        cands = fn_candidates(text, fn, lo + 1, hi, groups)
+        pick = select_unique(text, cands, groups, f"fn {fn}" + (f" in scope {scope!r}" if scope else ""), lo)
+        if pick is not None and pick not in found:
+            found.append(pick)
+    if not found:
+        raise TranslateError(f"fn {fn} not found" + (f" in scope {scope!r}" if scope else ""))
+    if len(found) > 1:
+        raise TranslateError(f"fn {fn} is ambiguous: the scope {scope!r} matches {len(found)} items that define it")
+    h0, b0, b1, _ = found[0]
+    return text[h0:b0], text[b0:b1]
+
+
+# ---- `use` declarations
+
+def use_decls(text):
+    """every compiled `use …;` of comment-stripped text as leaves (position, full path, bound name | None for a glob, renamed?)"""
+    groups = scan_braces(text)
+    out = []
+
+    def leaves(prefix, tree, pos):
+        tree = tree.strip()
+        if not tree:
+            return
+        m = re.match(r"((?:[\w]+\s*::\s*)*)\{", tree)
+        if m and tree.endswith("}"):
+            pre = prefix + [x.strip() for x in m.group(1).split("::") if x.strip()]
+            inner, parts, cur, d = tree[m.end():-1], [], "", 0
+            for ch in inner:
+                d += (ch == "{") - (ch == "}")
+                if ch == "," and d == 0:
+                    parts.append(cur); cur = ""
+                else:
+                    cur += ch
+            parts.append(cur)
+            for part in parts:
+                leaves(pre, part, pos)
+            return
+        m = re.fullmatch(r"([\w:\s*]+?)(?:\s+as\s+(\w+))?", tree)
+        if not m:
+            raise TranslateError(f"cannot parse `use` tree `{tree[:60]}`")
+        segs = prefix + [x.strip() for x in m.group(1).split("::") if x.strip()]
+        if segs[-1] == "*":
+            out.append((pos, "::".join(segs), None, False))
+            return
+        if segs[-1] == "self":
+            segs = segs[:-1]
+        alias = m.group(2)
+        out.append((pos, "::".join(segs), alias or segs[-1], alias is not None and alias != segs[-1]))
+    for m in re.finditer(r"\buse\s+([^;]+);", text):
+        if compiled_at(text, m.start(), groups) is False:
+            continue
+        leaves([], m.group(1), m.start())
+    return out
+
+
+def refuse_renaming_uses(text, names, what):
+    """a `use a::b as c;` changes what the NAME c (or b) means: refused when the translated code mentions either name"""
+    for pos, path, name, renamed in use_decls(text):
+        if renamed and name != "_" and (name in names or path.split("::")[-1] in names):
+            raise TranslateError(f"{what}: the import `use {path} as {name}` renames a name the translated code uses "
+                                 "(names are resolved by spelling; renaming imports are outside the translated subset)")
+
+
+def check_expected_uses(text, expected, what, allow_globs=None):
+    """token-check of the imports against the list the spec expects: `expected` maps a bound name to the full path it must be
+    imported from.  Every expected name must be imported explicitly, from that path and nowhere else; renaming imports are refused;
+    with `allow_globs` (a list of paths) every other glob import is refused too (None: globs are not looked at — an explicit import
+    takes precedence over a glob)"""
+    seen = set()
+    for pos, path, name, renamed in use_decls(text):
+        if name is None:
+            if allow_globs is not None and path not in allow_globs:
+                raise TranslateError(f"{what}: glob import `use {path};` is not in the list of expected imports")
+            continue
+        if renamed and name != "_":
+            if name in expected or path.split("::")[-1] in expected or allow_globs is not None:
+                raise TranslateError(f"{what}: renaming import `use {path} as {name}`")
+            continue
+        if name in expected:
+            if path not in ([expected[name]] if isinstance(expected[name], str) else list(expected[name])):
+                raise TranslateError(f"{what}: `{name}` is imported from `{path}`, the spec expects `{expected[name]}`")
+            seen.add(name)
+    missing = sorted(set(expected) - seen)
+    if missing:
+        raise TranslateError(f"{what}: the expected import of `{missing[0]}` (from `{expected[missing[0]]}`) is missing")
+
+
+def sibling_kernels(k):
+    """the kernel specs registered next to `k` (same tools/kernels module)"""
+    import sys
+    for mod in list(sys.modules.values()):
+        ks = getattr(mod, "KERNELS", None)
+        if isinstance(ks, list) and any(x is k or getattr(x, "misc", None) is k for x in ks):
+            return [getattr(x, "misc", None) or x for x in ks]
+    return []
+
+
+def norm_toks(toks):
+    return [(t[0], re.sub(r"^__bstr\d+$", "__bstr", t[1]) if t[0] == "id" else t[1], t[2]) for t in toks]
+
+
+def check_nested_fn(k, name, body_toks, src, lexer=None):
+    """a `fn` item nested in a translated body shadows every outer function of that name for the calls of this body.  It is accepted
+    only when a kernel of the same spec module translates exactly THIS item (same file, same name, identical body tokens) — so that
+    the definition a call is rendered by is tied to the code the call really reaches; otherwise TranslateError."""
+    lexer = lexer or lex
+    for sib in sibling_kernels(k):
+        if getattr(sib, "fn", None) != name or getattr(sib, "file", None) != k.file or getattr(sib, "kind", "fn") != "fn":
+            continue
+        try:
+            _, b = find_fn(src, name, getattr(sib, "scope", None))
+        except TranslateError:
+            continue
+        if norm_toks(lexer(b)) == norm_toks(body_toks):
+            return
+    raise TranslateError(f"nested `fn {name}` inside the translated body: no kernel of this spec translates that very item "
+                         "(it would shadow the function the spec's call table means)")
 
 
 # ----------------------------------------------------------------------------------------------- parser (AST)
 
 class P:
+    fnitems = False       # True: a nested `fn` item becomes a ("fnitem", name, body tokens) statement; False (legacy): skipped, name recorded
+
     def __init__(self, toks):
         self.t, self.i = toks, 0
+        self.skipped_fns = []
+        self.dropped_generics = []      # generic argument lists dropped from type / path syntax by a subclass (ktx_misc.P2), for refusal
 
     def peek(self, k=0):
         return self.t[self.i + k] if self.i + k < len(self.t) else ("eof", None, None)
@@ -142,22 +511,63 @@ class P:
         return name
 
     # --- statements
+    def attribute(self):
+        """`#[…]` / `#![…]` in a body: conditional compilation is refused (the statement it gates would otherwise be translated
+        unconditionally); other attributes (`#[inline]`, `#[allow(..)]`, `#[rustfmt::skip]`) do not change the meaning"""
+        self.eat("#")
+        if self.at("!"):
+            self.eat()
+        self.eat("["); d = 1
+        first = self.peek()
+        if first[0] == "id" and first[1] in ("cfg", "cfg_attr"):
+            raise TranslateError(f"`#[{first[1]}(..)]` inside a function body is outside the translated subset")
+        while d:
+            t = self.eat()
+            if t[0] == "eof":
+                raise TranslateError("unterminated attribute")
+            d += (t[1] == "[") - (t[1] == "]")
+
+    def at_fn_item(self):
+        j = 0
+        while self.peek(j)[0] == "id" and self.peek(j)[1] in ("pub", "const", "unsafe", "async", "extern"):
+            j += 1
+            if self.peek(j)[0] == "op" and self.peek(j)[1] == "(" and self.peek(j - 1)[1] == "pub":     # pub(crate)
+                while not (self.peek(j)[0] == "op" and self.peek(j)[1] == ")"):
+                    j += 1
+                j += 1
+        return self.peek(j)[0] == "id" and self.peek(j)[1] == "fn" and self.peek(j + 1)[0] == "id"
+
+    def fn_item(self):
+        """nested `fn` item -> ("fnitem", name, body tokens): never skipped; the translator decides (see check_nested_fn)"""
+        while not self.atid("fn"):
+            self.eat()
+        self.eat(); name = self.eat()[1]
+        while not self.at("{"):
+            if self.peek()[0] == "eof":
+                raise TranslateError("nested fn item without a body")
+            self.eat()
+        self.eat("{"); d, start = 1, self.i
+        while d:
+            t = self.eat()
+            if t[0] == "eof":
+                raise TranslateError("unterminated nested fn item")
+            d += (t[1] == "{" and t[0] == "op") - (t[1] == "}" and t[0] == "op")
+        return ("fnitem", name, self.t[start:self.i - 1])
+
     def block(self):
         stmts = []
         while self.peek()[0] != "eof" and not self.at("}"):
             if self.at(";"):
                 self.eat(); continue
-            if self.at("#"):              # attribute
-                self.eat(); self.eat("["); d = 1
-                while d:
-                    t = self.eat()[1]; d += (t == "[") - (t == "]")
+            if self.at("#"):
+                self.attribute()
                 continue
-            if self.atid("fn") or (self.atid("const") and self.peek(1)[1] == "fn"):   # nested item: skipped (tied separately)
-                while not self.at("{"):
-                    self.eat()
-                self.eat("{"); d = 1
-                while d:
-                    t = self.eat()[1]; d += (t == "{") - (t == "}")
+            if self.at_fn_item():
+                item = self.fn_item()
+                if self.fnitems:
+                    stmts.append(item)
+                else:                     # legacy consumers: skipped as before, but on record (a consumer should refuse or check them)
+                    self.skipped_fns.append(item[1])
                 continue
             stmts.append(self.stmt())
         return stmts
@@ -187,18 +597,53 @@ class P:
             return inner
         return ("var", name)
 
+    def refmut_init(self, i0, i1):
+        """does the initialiser tokens[i0:i1] CREATE a mutable alias (`&mut place`, `&mut *p`, a tuple of them)?  `&mut` inside the
+        argument list of a call is an ordinary argument, not an alias that outlives the statement"""
+        depth = []
+        for j in range(i0, i1):
+            t = self.t[j]
+            if t[0] == "op" and t[1] in "([":
+                prev = self.t[j - 1] if j > i0 else ("op", "=", None)
+                depth.append(prev[0] == "id" or (prev[0] == "op" and prev[1] in (")", "]", ">")))      # call / index / turbofish call
+            elif t[0] == "op" and t[1] in ")]":
+                if depth:
+                    depth.pop()
+            elif t[0] == "op" and t[1] in ("&", "&&") and j + 1 < i1 and self.t[j + 1][:2] == ("id", "mut") and not any(depth):
+                return True
+        return False
+
+    def let_stmt(self):
+        """`let pat [: T] [= init];` -> ("let", pat, ty, init) — with a 5th component "refmut" when the initialiser creates a `&mut` alias"""
+        self.eat()
+        pat = self.pattern()
+        ty = None
+        if self.at(":"):
+            self.eat(); ty = self.ty()
+        init, alias = None, False
+        if self.at("="):
+            self.eat(); i0 = self.i; init = self.expr()
+            alias = self.refmut_init(i0, self.i)
+        self.eat(";")
+        return ("let", pat, ty, init, "refmut") if alias else ("let", pat, ty, init)
+
+    def assign_node(self, lhs, op, rhs, i0):
+        """("assign", lhs, op, rhs) — with a 5th component "refmut" when the right-hand side creates a `&mut` alias (`p = &mut x;`)"""
+        if self.refmut_init(i0, self.i):
+            return ("assign", lhs, op, rhs, "refmut")
+        return ("assign", lhs, op, rhs)
+
+    def return_stmt(self):
+        """`return [e][;]` -> ("return", e | None): its own node kind — a `return` is NOT the value of the block it stands in"""
+        self.eat()
+        e = None if (self.at(";") or self.at("}") or self.peek()[0] == "eof") else self.expr()
+        if self.at(";"):
+            self.eat()
+        return ("return", e)
+
     def stmt(self):
         if self.atid("let"):
-            self.eat()
-            pat = self.pattern()
-            ty = None
-            if self.at(":"):
-                self.eat(); ty = self.ty()
-            init = None
-            if self.at("="):
-                self.eat(); init = self.expr()
-            self.eat(";")
-            return ("let", pat, ty, init)
+            return self.let_stmt()
         if self.atid("for"):
             self.eat(); var = self.eat()[1]; self.eat("in")
             lo = self.expr_nostruct();
@@ -206,17 +651,14 @@ class P:
             body = self.block(); self.eat("}")
             return ("for", var, lo, body)
         if self.atid("return"):
-            self.eat(); e = self.expr();
-            if self.at(";"):
-                self.eat()
-            return ("ret", e)
+            return self.return_stmt()
         e = self.expr()
         if self.at("=", "+=", "-=", "*=", "&=", "|=", "^=", "<<=", ">>="):
-            op = self.eat()[1]; rhs = self.expr(); self.eat(";")
-            return ("assign", e, op, rhs)
+            op = self.eat()[1]; i0 = self.i; rhs = self.expr(); self.eat(";")
+            return self.assign_node(e, op, rhs, i0)
         if self.at(";"):
             self.eat(); return ("expr", e)
-        return ("ret", e)               # trailing expression
+        return ("ret", e)               # expression without `;`: the trailing value of the block, or a block-like statement (`if c {…}`)
 
     # --- expressions (Rust precedence)
     BIN = [["||"], ["&&"], ["==", "!=", "<", ">", "<=", ">="], ["|"], ["^"], ["&"], ["<<", ">>"], ["+", "-"], ["*", "/", "%"]]
@@ -345,10 +787,14 @@ class Kernel:
     ret_type            Lean result type text
     env                 initial environment: rust expression text -> (lean text, rust type), e.g. {"self.r[0]": ("r.l0","u32")}
     consts              rust const name -> (lean text, type)
-    calls               rust fn name -> (lean template with {0},{1}…, result type, checked?)   (pure helper calls)
+    calls               rust fn name -> (lean template with {0},{1}… | python handler(tr, args) -> lean text, result type, [arg types])
+                        (pure helper calls; a slice argument `&m[a..b]` is passed as three texts base, a, b)
+    uses                optional: bound name -> path it must be imported from by a `use` of the file (checked on the source)
     stores              rust lvalue text -> output slot name (for `self.h[0] = h0` style results)
     result              python function (outputs dict, ret value text) -> Lean result expression text
-    skip_prefix         number of leading statements to skip (handled by the hand model separately), or a predicate
+    stmt_filter         optional predicate (index, stmt) -> keep?  (statements the spec deliberately leaves to another kernel; it must
+                        name them precisely — a filter like "every `if`" would also hide an `if` added later)
+    select              optional function stmts -> stmts (e.g. the body of the first `for`)
     """
 
     def __init__(self, **kw):
@@ -363,6 +809,7 @@ class Kernel:
         self.select = kw.get("select")       # optional: python function stmts -> stmts (e.g. body of the first `for`)
         self.agg_calls = dict(kw.get("agg_calls", {}))   # fn name -> (lean fn, field names of the returned aggregate, elem type, monadic?)
         self.agg_fields = kw.get("agg_fields", ["l0", "l1", "l2", "l3", "l4"])
+        self.uses = dict(kw.get("uses", {}))
 
 
 def show(e):
@@ -515,6 +962,9 @@ class Tr:
                 else:
                     t, ty, at = self.ex(a, aty)
                     args.append(self.par(t, at))
+            if callable(tmpl):
+                # a python handler: gets the argument texts (a slice argument `&m[a..b]` as the tuple (base, lo, hi)) and can CHECK them
+                return (tmpl(self, args), rty, False)
             flat = []
             for a in args:
                 flat += list(a) if isinstance(a, tuple) else [a]
@@ -738,22 +1188,109 @@ class CkSum(OptChk):
         raise TranslateError(f"method {name}")
 
 
+def body_idents(toks):
+    return {t[1] for t in toks if t[0] == "id"}
+
+
+class TailExpr(tuple):
+    """the trailing expression handed to the spec's result function; remembers whether the function looked at it"""
+    used = False
+
+    def __getitem__(self, i):
+        self.used = True
+        return tuple.__getitem__(self, i)
+
+    def __iter__(self):
+        self.used = True
+        return tuple.__iter__(self)
+
+
+def pure_tail(e, k):
+    """a trailing expression the kernel's result function may ignore must be free of effects and of statements: refuse blocks,
+    `if` with statement branches, `match`, macros and calls of functions the spec does not name"""
+    if not isinstance(e, tuple) or not e:
+        return
+    kind = e[0]
+    if kind in ("lit", "path"):
+        return
+    if kind == "if":
+        for blk in (e[2], e[3]):
+            if blk is None or len(blk) != 1 or blk[0][0] != "ret":
+                raise TranslateError("`if` with statement branches (or without `else`) in tail position is not a value expression")
+            pure_tail(blk[0][1], k)
+        return pure_tail(e[1], k)
+    if kind == "call":
+        fname = show(e[1]).split("::")[-1] if e[1][0] == "path" else None
+        if fname is None or not (fname in k.calls or fname in k.agg_calls or fname[:1].isupper()):
+            raise TranslateError(f"trailing call of `{fname}`: not a function named by the kernel spec")
+        for a in e[2]:
+            pure_tail(a, k)
+        return
+    if kind == "method":
+        if not e[2].startswith("wrapping_"):
+            raise TranslateError(f"trailing method call .{e[2]}()")
+        pure_tail(e[1], k)
+        for a in e[3]:
+            pure_tail(a, k)
+        return
+    if kind in ("paren", "not", "neg", "cast", "field"):
+        return pure_tail(e[1], k)
+    if kind == "bin":
+        pure_tail(e[2], k); return pure_tail(e[3], k)
+    if kind == "index":
+        pure_tail(e[1], k); return pure_tail(e[2], k)
+    if kind == "range":
+        for x in e[1:3]:
+            if x is not None:
+                pure_tail(x, k)
+        return
+    if kind in ("tuple", "array"):
+        for x in e[1]:
+            pure_tail(x, k)
+        return
+    if kind == "repeat":
+        pure_tail(e[1], k); return pure_tail(e[2], k)
+    raise TranslateError(f"trailing expression of kind `{kind}` is not a plain value")
+
+
 def translate(k: Kernel):
-    path = os.path.join(REPO, k.file)
+    path = os.path.join(repo(), k.file)
     src = open(path).read()
     _, body = find_fn(src, k.fn, k.scope)
-    stmts = P(lex(body)).block()
+    toks = lex(body)
+    refuse_renaming_uses(strip_comments(src), body_idents(toks) | set(k.calls) | set(k.agg_calls), f"{k.file}: fn {k.fn}")
+    if k.uses:
+        check_expected_uses(strip_comments(src), k.uses, k.file)
+    parser = P(toks)
+    parser.fnitems = True
+    stmts = parser.block()
+    for s in stmts:
+        if s[0] == "fnitem":
+            check_nested_fn(k, s[1], s[2], src)
+    stmts = [s for s in stmts if s[0] != "fnitem"]
     if k.select:
         stmts = k.select(stmts)
     tr = NatLet(k) if k.backend == "natlet" else (CkSum(k) if k.backend == "cksum" else OptChk(k))
     for key, (val, ty) in k.env.items():
         if isinstance(val, list) and re.fullmatch(r"[A-Za-z_]\w*", key) and key not in ("self", "rhs"):
             tr.vars[key] = (list(val), ty)
+    if k.stmt_filter:
+        stmts = [s for idx, s in enumerate(stmts) if k.stmt_filter(idx, s)]
     ret = None
     for idx, s in enumerate(stmts):
-        if k.stmt_filter and not k.stmt_filter(idx, s):
-            continue
         kind = s[0]
+        last = idx == len(stmts) - 1
+        if kind == "return":
+            # `return e;` as the LAST statement of the body is the trailing value; anywhere else it is control flow
+            if not last or s[1] is None:
+                raise TranslateError("`return` before the end of a straight-line kernel (early return) is not translated")
+            kind, s = "ret", ("ret", s[1])
+        if kind == "ret" and not last:
+            what = s[1][0]
+            raise TranslateError(f"`{what}` statement in a straight-line kernel: control flow / value expression in the middle of the body "
+                                 "is not translated (would be dropped)")
+        if kind == "let" and len(s) > 4:
+            raise TranslateError("`let x = &mut <place>` creates a mutable alias (writes through it would be lost)")
         if kind == "let":
             pat, ty, init = s[1], s[2], s[3]
             if pat[0] == "tuple":
@@ -821,6 +1358,8 @@ def translate(k: Kernel):
                 tr.bind_var(name, t, ety)
         elif kind == "assign":
             lhs, op, rhs = s[1], s[2], s[3]
+            if len(s) > 4:
+                raise TranslateError("`p = &mut <place>` creates a mutable alias (writes through it would be lost)")
             try:
                 key = show(lhs)
             except TranslateError:
@@ -879,12 +1418,14 @@ def translate(k: Kernel):
             else:
                 tr.bind_var(name, t, ty or ety)
         elif kind == "ret":
-            ret = s[1]
+            ret = TailExpr(s[1])
         elif kind == "expr":
             raise TranslateError(f"unsupported expression statement {s[1][0]}")
         else:
             raise TranslateError(f"unsupported statement {kind}")
     res = k.result(tr, ret)
+    if ret is not None and not ret.used:
+        pure_tail(tuple(ret), k)          # the spec's result function ignored the trailing expression: it must be a plain value
     monadic = k.backend in ("optchk", "cksum")
     final = (res if res.startswith("  ") else f"  pure {res}") if monadic else f"  {res}"
     return (f"/-- {k.doc} — GENERATED from `fn {k.fn}` in {k.file} -/\n"
